@@ -145,7 +145,19 @@ def eval_case(cg, start, n, inject):
     for s in cg["starts"]:
         P.append({"tag": 0, "form": "start", "esym": 0, "exact": False, "unit": False, "syms": [{"k": "sym", "i": 1, "sel": False}],
                   "fail": {"on": False, "s": 1, "m": 1, "r": 0}})
-    return {"id": "%s@%s" % (cg["id"], start), "G": G, "sp": sp[start], "n": n, "inject": inject, "P": P}
+    return {"id": "%s@%s" % (cg["id"], start), "G": G, "sp": sp[start], "n": n, "inject": inject, "P": P,
+            "inl": list(cg.get("inline", []))}
+
+
+def nt_name(cg, nt):
+    return cg.get("names", {}).get(nt, nt)
+
+
+def bind_name(cg, j):
+    pool = cg.get("bind_names")
+    if not pool:
+        return "x%d" % j
+    return pool[j % len(pool)] if j < len(pool) else "%s_%d" % (pool[j % len(pool)], j)
 
 
 def _symtext(cg, p, s):
@@ -156,7 +168,7 @@ def _symtext(cg, p, s):
     x = p["rhs"][s["i"] - 1]
     if x == "error":
         return "!"
-    return '"%s"' % x if x in cg["ts"] else x
+    return '"%s"' % x if x in cg["ts"] else nt_name(cg, x)
 
 
 def render_alt(cg, p):
@@ -174,8 +186,8 @@ def render_alt(cg, p):
             elif j == e + 1:
                 parts.append("<er:%s>" % t)
             elif s["sel"]:
-                names.append("x%d" % j)
-                parts.append("<x%d:%s>" % (j, t))
+                names.append(bind_name(cg, j))
+                parts.append("<%s:%s>" % (bind_name(cg, j), t))
             else:
                 parts.append(t)
         return "%s => recovered(%d, &ee, el, er, kids![%s])," % (" ".join(parts), p["tag"], ", ".join(names))
@@ -183,7 +195,7 @@ def render_alt(cg, p):
         t = _symtext(cg, p, s)
         if form in ("user", "fallible"):
             if s["sel"]:
-                nm = "x%d" % j
+                nm = bind_name(cg, j)
                 names.append(nm)
                 parts.append("<%s%s:%s>" % ("mut " if j in p.get("mut", []) else "", nm, t))
             else:
@@ -192,12 +204,15 @@ def render_alt(cg, p):
             parts.append("<%s>" % t if s["sel"] else t)
     body = " ".join(parts)
     if form == "user":
+        gp = cg.get("grammar_param")
+        if gp:
+            return "%s => node(%d + (%s as u32), kids![%s])," % (body, p["tag"], gp, ", ".join(names))
         return "%s => node(%d, kids![%s])," % (body, p["tag"], ", ".join(names))
     if form == "usera":
         return "%s => node(%d, kids!(<>))," % (body, p["tag"])
     if form == "fallible":
         f = p["fail"]
-        cond = "x%d %% %d == %d" % (f["s"] - 1, f["m"], f["r"])
+        cond = "%s %% %d == %d" % (bind_name(cg, f["s"] - 1), f["m"], f["r"])
         return "%s =>? fnode(%d, kids![%s], %s)," % (body, p["tag"], ", ".join(names), cond)
     return "%s," % body
 
@@ -210,12 +225,15 @@ def render(cg, algo="lane", backend="table"):
     b = BACKENDS[backend]
     if b:
         lines.append(b)
-    lines.append("grammar;")
+    gp = cg.get("grammar_param")
+    lines.append("grammar%s;" % (("(%s: usize)" % gp) if gp else ""))
     conv = ", ".join('"%s" => Tok::T%d(<usize>)' % (t, i) for i, t in enumerate(cg["ts"]))
     lines.append("extern { type Location = usize; type Error = UErr; enum Tok { %s } }" % conv)
     for nt in cg["nts"]:
         alts = [p for p in cg["prods"] if p["lhs"] == nt]
         vis = "pub " if nt in cg["starts"] else ""
+        if nt in cg.get("inline", []):
+            vis = "#[inline] " + vis
         kind = cg["kinds"][nt]
         ty = {"V": ": V", "unit": ": ()", "infer": ""}[kind]
         body = []
@@ -224,7 +242,7 @@ def render(cg, algo="lane", backend="table"):
                 body.append("    => (),")  # an empty alternative needs `=>`; `()` is "no code"
             else:
                 body.append("    " + render_alt(cg, p))
-        lines.append("%s%s%s = {\n%s\n};" % (vis, nt, ty, "\n".join(body)))
+        lines.append("%s%s%s = {\n%s\n};" % (vis, nt_name(cg, nt), ty, "\n".join(body)))
     return "\n".join(lines) + "\n"
 
 
@@ -262,3 +280,24 @@ def run_case(cg, start, n, inject, export, auto, backend, cid):
             return None
     return {"id": cid, "G": G, "sp": sp[start], "n": n, "inject": inject, "P": ec["P"],
             "recovery": bool(export["uses_error_recovery"]), "backend": backend, "states": states}
+
+
+def inlinable(cg):
+    """non-pub nonterminals that are not recursive (directly or indirectly)"""
+    refs = {nt: set() for nt in cg["nts"]}
+    for p in cg["prods"]:
+        for x in p["rhs"]:
+            if x in refs:
+                refs[p["lhs"]].add(x)
+
+    def reaches(a, b, seen):
+        for x in refs[a]:
+            if x == b:
+                return True
+            if x not in seen:
+                seen.add(x)
+                if reaches(x, b, seen):
+                    return True
+        return False
+
+    return [nt for nt in cg["nts"] if nt not in cg["starts"] and not reaches(nt, nt, set())]
